@@ -75,6 +75,11 @@ func (w *World) VerifyFunction(pk *Pkg, fn *ssa.Function, fc *FuncContract) (res
 func (x *Exec) verify() {
 	o := x.o
 	fn, fc := x.fn, x.fc
+	if fc.Pure {
+		if why := x.w.checkPure(fn, fc.Opts["ignores"]); why != "" {
+			x.oblige("pure", "", nil, "function is pure: "+why, o.True(), o.False())
+		}
+	}
 	pos := x.w.Fset.Position(fn.Pos())
 	x.curPos = fmt.Sprintf("%s:%d", relPath(x.w.RepoDir, pos.Filename), pos.Line)
 	entry := &State{Guard: o.True(), Regs: map[ssa.Value]Val{}, Cells: map[*Object]Val{}, Ghost: map[string]Val{}}
